@@ -143,10 +143,14 @@ def run(ctx):
     meta = []
     skipped = 0
     per_kind = collections.Counter()
+    not_loading = []
     for name, base in BASES.items():
         ref = digest(base)
         if isinstance(ref, tuple):
-            raise RuntimeError("harness: base %s does not load: %r" % (name, ref))
+            # a base script that does not load cannot anchor a metamorphic comparison; that it is rejected at all is
+            # C02's / C10's subject (both enumerate such scripts) - it is counted, not reported here
+            not_loading.append(name)
+            continue
         edits = single_edits(base)
         usable = [e for e in edits if e[3] is not None]
         skipped += len(edits) - len(usable)
@@ -206,7 +210,7 @@ def run(ctx):
            "rule": "%d base scripts covering every rule that mentions NEWLINE or TAB; edits at EVERY site: spaces at each intra-line token boundary and line end set to 1/2/3 (kept only if the reference tokenizer confirms an unchanged token sequence; "
                    "boundaries next to indentation excluded), 3 kinds of trailing comment on each line, 5 kinds of inserted line before each line and at end of file (not inside array bodies); x 12 global styles (LF/CRLF/CR x tab/4 spaces x final newline or not) "
                    "(quick: 3 styles for spacing edits); blank/comment lines before the metadata; pairs of line edits on the short bases. non-trivial = variant text differs from the base; distinct by text" % len(BASES),
-           "samples": [repr(c[1]) for c in common.sample(cases, 4)], "exhaustive": True, "by_edit_kind": dict(per_kind), "spacing_edits_skipped_token_change": skipped}
+           "samples": [repr(c[1]) for c in common.sample(cases, 4)], "exhaustive": True, "by_edit_kind": dict(per_kind), "base_scripts_not_loading": not_loading, "spacing_edits_skipped_token_change": skipped}
     return {"coverage": cov, "violations": Vs.records(),
             "assumptions": ["a comment line indented by a tab or four spaces produces a TAB token: next to indentation, excluded by the property, not generated", "digest = exact canonical program content incl. variables"]}
 
